@@ -237,8 +237,16 @@ def main(tier, seed):
                         phi[p["over"] - 1] = f(dec_dec(p["overL"]))     # a pore far beyond the range in the middle (spec "over")
                     lnp = phi - corr
                 cap.fake = False
+                if p["dup"]:
+                    # a duplicate measurement: the pressure of the point before, with its own (larger) loading (spec "dup")
+                    lnp = numpy.array(lnp, dtype=float)
+                    lnp[p["dup"] - 1] = lnp[p["dup"] - 2]
+                    if chosenW:
+                        chosenW = list(chosenW)
+                        chosenW[p["dup"] - 1] = NONFINITE if cy else chosenW[p["dup"] - 2]     # with Cheng-Yang the other loading gives another width
+                    run.add("runs_with_a_repeated_pressure")
                 pressure = numpy.exp(lnp)
-                if not (numpy.all(numpy.isfinite(pressure)) and numpy.all(pressure > 0) and len(set(pressure.tolist())) == N):
+                if not (numpy.all(numpy.isfinite(pressure)) and numpy.all(pressure > 0) and len(set(pressure.tolist())) == N - (1 if p["dup"] else 0)):
                     run.add("scenarios_skipped_degenerate_pressures")
                     continue
                 increasing = bool(numpy.all(numpy.diff(pressure) > 0))
@@ -251,7 +259,8 @@ def main(tier, seed):
                     run.add("runs_with_a_point_beyond_the_size_cutoff")
                 entry = "raw"
                 # the isotherm entry point needs an adsorption branch (increasing pressures)
-                use_api = increasing and bool(numpy.all(pressure < 0.999)) and pick(s["id"] + 5, seed, 4)
+                nondecreasing = bool(numpy.all(numpy.diff(pressure) >= 0))
+                use_api = bool(numpy.all(pressure < 0.999)) and ((increasing and pick(s["id"] + 5, seed, 4)) or (bool(p["dup"]) and nondecreasing))
                 if use_api:
                     entry = "api"
                     st = space["api_storage"][(s["id"] // 12 + s["id"] + seed) % len(space["api_storage"])]
